@@ -15,7 +15,7 @@ def castJson (cast : List (PyType × String)) : Except Exc PyVal :=
         match castDtypeLookup.find? (fun p => p.2 == t) with
         | some p => pure p.1
         | none => throw .keyError
-      let toT ← match castLookup.find? (fun e => e.2 == tf.2 && e.1.1 == tf.1) with
+      let toT ← match castLookup.reverse.find? (fun e => e.2 == tf.2) with
         | some e => pure e.1.2
         | none => throw .keyError
       pure (PyVal.str (← nameOf tf.1), PyVal.str (← nameOf toT)))
